@@ -161,6 +161,28 @@ func init() {
 		s.results = nil
 		return true
 	}
+	memWS := func(t types.Type) func(fc *FnCtx, c ssa.CallInstruction) *WriteSet {
+		return func(fc *FnCtx, c ssa.CallInstruction) *WriteSet {
+			ws := newWS()
+			ws.add("alloc")
+			n := fc.memVar(t)
+			ws.add(n)
+			ws.Fresh[n] = true
+			return ws
+		}
+	}
+	libWriteSets["strings.Split"] = memWS(types.Typ[types.String])
+	libWriteSets["regexp.Regexp.FindStringSubmatch"] = memWS(types.Typ[types.String])
+	for _, k := range []string{"md5.New", "sha1.New", "hmac.New"} {
+		libWriteSets[k] = func(fc *FnCtx, c ssa.CallInstruction) *WriteSet {
+			ws := newWS()
+			ws.add("alloc")
+			n := fc.libStateVar("written")
+			ws.add(n)
+			ws.Fresh[n] = true
+			return ws
+		}
+	}
 	libWriteSets["sort.Sort"] = sortWrites
 	libWriteSets["sort.Stable"] = sortWrites
 	libModels["sort.Sort"] = modelSortSort
@@ -205,12 +227,7 @@ func init() {
 	libWriteSets["io.WriteString"] = writtenWS
 	for _, k := range []string{"hash.Hash.Sum", "Hash.Sum"} {
 		libModels[k] = modelHashSum
-		libWriteSets[k] = func(fc *FnCtx, c ssa.CallInstruction) *WriteSet {
-			ws := newWS()
-			ws.add("alloc")
-			ws.add(fc.memVar(types.Typ[types.Uint8]))
-			return ws
-		}
+		libWriteSets[k] = memWS(types.Typ[types.Uint8])
 	}
 	libModels["errors.New"] = freshError
 	libModels["fmt.Errorf"] = freshError
